@@ -41,6 +41,7 @@ def is_bool(x):
 
 @contract(FT + "and_composition", prop=["C08"])
 class FcAnd:
+    runtime_checkable = True
     params = dict(self=SELF, left=efc(), right=efc())
     returns = efc()
     raises = {}
@@ -62,6 +63,7 @@ class FcAnd:
 
 @contract(FT + "or_composition", prop=["C08"])
 class FcOr:
+    runtime_checkable = True
     params = dict(self=SELF, left=efc(), right=efc())
     returns = efc()
     raises = {}
@@ -83,6 +85,7 @@ class FcOr:
 
 @contract(FT + "xor_composition", prop=["C08"])
 class FcXor:
+    runtime_checkable = True
     params = dict(self=SELF, left=efc(), right=efc())
     returns = efc()
     raises = {}
